@@ -39,7 +39,7 @@ PubSite(t) == CASE pc'[t] = "P_rlock" /\ pc[t] = "P_check" -> "gochannel.publish
                 [] pc[t] = "P_unlock"   -> "gochannel.publish.sent"
                 [] OTHER -> ""
 SubSite(t) == CASE pc'[t] = "S_lock" -> "gochannel.subscribe.closed_checked"
-                [] pc'[t] = "done" /\ pc[t] = "S_acq" -> "gochannel.subscribe.registered"
+                [] pc'[t] = "done" /\ pc[t] \in {"S_acq", "S_replay", "S_noreplay"} -> "gochannel.subscribe.registered"
                 [] OTHER -> ""
 TearSite(t) == CASE pc'[t] = "T_sendmu" -> "gochannel.sub.close.before_lock"
                  [] pc'[t] = "T_lock"   -> "gochannel.sub.close.closed"
@@ -57,7 +57,7 @@ SPub(t) == /\ Free(t)
            /\ (PCheck(t) \/ PRLock(t) \/ PRAdmitted(t) \/ PTmu(t) \/ PPersistSend(t) \/ PWait(t) \/ PUnlock(t) \/ PNext(t) \/ PRet(t))
            /\ Moves(t, IF perr'[t] THEN "" ELSE PubSite(t))
 SSub(s) == /\ Free(SubC(s))
-           /\ (SStart(s) \/ SAnnounce(s) \/ SRegister(s))
+           /\ (SStart(s) \/ SAnnounce(s) \/ SRegister(s) \/ SSnapshot(s) \/ SReplay(s))
            /\ Moves(SubC(s), SubSite(SubC(s)))
 STear(s) == /\ Free(Tear(s))
             /\ (TWake(s) \/ TCloseOut(s) \/ TAnnounce(s) \/ TRemove(s))
